@@ -26,6 +26,10 @@ type c19Case struct {
 	Concurrent bool       `json:"concurrent"`
 	Licence    bool       `json:"licence"`
 	BuildOther bool       `json:"licence_differs_at_build_time,omitempty"` // the pipe is built while the licence is in the opposite state
+	// RegisterFirst: the collector is registered (pedantic registry: every collected
+	// metric must match a described one) right after the pipe is built, before any
+	// subscription - the order the plugin's documentation shows
+	RegisterFirst bool `json:"register_before_subscribing,omitempty"`
 }
 
 func init() {
@@ -135,6 +139,14 @@ func c19Run(t rt.TB, c c19Case) {
 	}
 	instrumented, collector := promPipeN(roprometheus.CollectorConfig{Namespace: "verif"}, ro.PipeOp1(countTap(&srcTap))(src.Observable()), slots)
 	roprometheus.VerifSetLicenseBypass(c.Licence)
+	var earlyReg *prometheus.Registry
+	if c.RegisterFirst {
+		earlyReg = prometheus.NewPedanticRegistry()
+		if err := earlyReg.Register(collector); err != nil {
+			fail("collector-registration", fmt.Sprintf("Pipe%d: registering the collector before any subscription failed: %v", len(c.Links), err))
+			return
+		}
+	}
 	reference := srcPlain.Observable()
 	for _, p := range plain {
 		reference = p(reference)
@@ -221,6 +233,23 @@ func c19Run(t rt.TB, c c19Case) {
 	}
 	roprometheus.VerifSetLicenseBypass(c.Licence) // Collect consults the licence too
 	fams, err := gather(collector)
+	if earlyReg != nil {
+		// the registry that has known the collector since before the first subscription
+		// must export the same thing, and let go of it
+		efs, eerr := earlyReg.Gather()
+		if eerr != nil {
+			fail("gather-fails-when-registered-before-subscribing", fmt.Sprintf("Pipe%d(%s), collector registered (pedantic registry) before the first subscription: Gather: %v", len(c.Links), name, eerr))
+			return
+		}
+		if c.Licence && len(efs) != len(fams) {
+			fail("gather-fails-when-registered-before-subscribing", fmt.Sprintf("Pipe%d(%s): the early registry exports %d families, a fresh one %d", len(c.Links), name, len(efs), len(fams)))
+			return
+		}
+		if c.Licence && !earlyReg.Unregister(collector) {
+			fail("collector-cannot-be-unregistered", fmt.Sprintf("Pipe%d(%s): Unregister returned false for a collector registered before the first subscription", len(c.Links), name))
+			return
+		}
+	}
 	if err != nil {
 		fail("collector-error", fmt.Sprintf("%s: %v", desc, err))
 		return
@@ -389,7 +418,7 @@ func TestC19_Pipes(t *testing.T) {
 		if n > 6 && rapid.Bool().Draw(t, "shorter") {
 			n = rapid.IntRange(1, 6).Draw(t, "arity2")
 		}
-		c := c19Case{Links: c19Links(t, n), Script: genScript(t, 6, 1, 4, []byte{'C', 'E', 0}), Subs: rapid.IntRange(1, 3).Draw(t, "subs"), Concurrent: rapid.Bool().Draw(t, "concurrent"), Licence: rapid.IntRange(0, 3).Draw(t, "licence") != 0}
+		c := c19Case{Links: c19Links(t, n), Script: genScript(t, 6, 1, 4, []byte{'C', 'E', 0}), Subs: rapid.IntRange(1, 3).Draw(t, "subs"), Concurrent: rapid.Bool().Draw(t, "concurrent"), Licence: rapid.IntRange(0, 3).Draw(t, "licence") != 0, RegisterFirst: rapid.Bool().Draw(t, "registerFirst")}
 		if c.Concurrent {
 			c.Subs++
 			for _, l := range c.Links {
